@@ -297,11 +297,13 @@ def run_case(case):
         if vd.decompiled != text:
             found.add("decompile:not-idempotent", "decompiling the re-compiled decompiled text gives a different text", text, vd.decompiled, "decompiled program")
     # (d) 32- and 64-bit machines agree when nothing exceeds 32 bits
-    if model.max_abs < (1 << 31) and not hard_unspec(model) and not model.ub:
+    if model.max_abs < (1 << 31) and not hard_unspec(model) and not model.ub and "shift-count-beyond-32" not in model.flags:
         tags.append("width-comparable")
         _same(found, "width:32-vs-64", ref, drive(other, other.run_code_py, inputs, [], words, len(ref) + 2))
     # (e) single-stepping to the end, and a generated interleaving of step and resume segments
-    budget = 8 * model.steps + 64
+    # budget from the machine's own instruction count of the reference run (a step executes one instruction; leaving finished
+    # blocks can take a step of its own)
+    budget = 4 * max(model.steps, vtrace0[-1][2].get("count_instructions", 0)) + 64
     vs = new_machine(case)
     vs.begin(inputs)
     err, taken = ("none", 0) if vs.is_done else vs.step_n(budget)
@@ -386,6 +388,15 @@ def known_call_at_do_body_end(case, vio):
             and "call-at-do-body-end" in _model_of(case, calls=True).flags)
 
 
+def known_structure_word_in_comment(case, vio):
+    """the parser looks for the closing word of if/do/begin/: before it removes comments: a structure word inside a comment is
+    taken for program structure (valid programs rejected, unbalanced ones accepted)"""
+    if not vio.get("bucket", "").startswith("compile:"):
+        return False
+    return any(t in MF.STRUCTURE_IN_COMMENT for body in MF.comments_of(case["source"]) for t in body)
+
+
 KNOWN = {
+    "forth_structure_word_in_comment": known_structure_word_in_comment,
     "forth_call_at_do_body_end": known_call_at_do_body_end,
 }
